@@ -17,6 +17,9 @@ pub struct Stage {
     /// run the stage a second time with the workers of the `crc32c`-feature build and require
     /// identical per-case observations
     pub hw_compare: bool,
+    /// run the stage a second time with fresh worker processes of the same build and require
+    /// identical per-case observations (determinism across processes)
+    pub twice: bool,
 }
 
 /// Result of an in-process engine stage (E2 explicit-state BFS, E4 syndrome table).
@@ -48,7 +51,7 @@ pub struct Check {
 }
 
 fn st(space: &'static str, f: CaseFn, bound: (u32, u32), tiers: u8, what: &'static str) -> Stage {
-    Stage { space, f, bound, tiers, timeout_s: 20, what, hw_compare: false }
+    Stage { space, f, bound, tiers, timeout_s: 20, what, hw_compare: false, twice: false }
 }
 
 pub fn checks() -> Vec<Check> {
@@ -316,6 +319,36 @@ pub fn checks() -> Vec<Check> {
         extra: None,
         rule: "full products; the inserted content is always in a namespace different from the E57 namespace (prefix declared on the inserted element) and well-formed (checked with the independent parser); oracle = the report on the unmodified base document (root fields, every descriptor, points and blobs); evaluations = (position, name, shape) triples",
         assumptions: &["foreign child elements are only inserted into container elements (type Structure/Vector/CompressedVector), never into scalar elements and never inside a prototype", "children of an inserted foreign element are prefixed too, i.e. really foreign"],
+        ignore_resource_deaths: false,
+        budget_s: (55, 900),
+    },
+    Check {
+        id: "C19",
+        level: "model_checking",
+        stages: vec![
+            st("c19.layouts", c19::layouts, (1, 2), 3, "11 scenes encoded by e57spec under every layout with <=1 (thorough <=2) deviations: copy, compare as read, copy the copy (byte-identical), write twice (byte-identical)"),
+            st("c19.programs", c19::programs, (0, 0), 3, "outputs of all writer programs of depth <=2 (thorough <=3) and 250 metadata-rich files (catalogue strings in every field x 5 image kinds)"),
+            st("c19.bundled", c19::bundled, (0, 0), 3, "every bundled /repo/testdata/*.e57 that opens and whose prototypes follow the writer's documented rules"),
+            Stage { twice: true, ..st("c19.determinism", c19::determinism, (0, 0), 3, "all writer programs of depth <=2 executed in two separate sets of worker processes: per-case file bytes must be identical") },
+        ],
+        extra: None,
+        rule: "differential oracle: read(copy(F)) vs read(F) through the real reader (descriptors except file offsets and writer-computed bounds, raw points, blob bytes; limits when complete), byte equality of copy(copy(F)) and of repeated writes; the copier is the obvious public-API loop; files outside the writer's documented prototype rules or without GUIDs are filtered by rule, not by trying; distinct = distinct copies",
+        assumptions: &["bounds are recomputed by the writer and therefore not compared with foreign originals", "partial limits are dropped by design of the writer (documented in the changelog)"],
+        ignore_resource_deaths: false,
+        budget_s: (55, 900),
+    },
+    Check {
+        id: "C20",
+        level: "model_checking",
+        stages: vec![
+            Stage { timeout_s: 60, ..st("c20.t1_lattice", c20::t1_lattice, (0, 0), 3, "XYZ -> E57 -> XYZ through the built binaries: every finite f32 of the mini-float lattice + specials in 3 spellings (shortest, exponent, plain decimal) x 3 column rotations, all 256 colour values per channel") },
+            Stage { timeout_s: 60, ..st("c20.t1_shapes", c20::t1_shapes, (2, 2), 3, "line counts {5, 0, 1, cap-1, cap, cap+1} x <=2 deviations over CRLF, missing final newline and 7 line shapes (7+ columns, 5 columns, empty, trailing/leading space, comment)") },
+            st("c20.t2_check_crc", c20::t2_check_crc, (1, 1), 3, "e57-check-crc on 6 files + 11 scenes (<=1 layout deviation): intact, every page damaged in payload, in checksum, truncated by a page, by a byte; exit status vs library and independent page check"),
+            st("c20.t3_unpack", c20::t3_unpack, (1, 1), 3, "e57-extract-xml and e57-unpack on the same corpus, intact and with every single page damaged: output files vs raw_xml / xml() / raw values / blob bytes from the library"),
+        ],
+        extra: None,
+        rule: "the five tool binaries are built from /repo's workspace and run as subprocesses on files in a private work directory; T1 numeric comparison of parsed output with the f32 values / colour integers written (-0 == 0), T2 exit status, T3 byte equality with library results; evaluations = lines / files compared",
+        assumptions: &["T1 judges single-space separated clean tokens (what the tool documents) and finite coordinates", "a tool may fail where the library fails; it must not succeed with other data"],
         ignore_resource_deaths: false,
         budget_s: (55, 900),
     },
